@@ -104,3 +104,40 @@ package s2
 //@   ensures [backwards] r.rangeNodes[r.pos].startID < old(c.prevStartID) && r.rangeNodes[r.pos].contents >= 0 ==> !c.Done() && vcSame(c.node, c.cellTree[r.rangeNodes[r.pos].contents])
 //@   ensures [forwards] r.rangeNodes[r.pos].startID >= old(c.prevStartID) && r.rangeNodes[r.pos].contents > old(c.nodeCutoff) ==> !c.Done() && vcSame(c.node, c.cellTree[r.rangeNodes[r.pos].contents])
 //@   ensures [suppressed] r.rangeNodes[r.pos].startID >= old(c.prevStartID) && r.rangeNodes[r.pos].contents <= old(c.nodeCutoff) ==> c.Done()
+
+// ---------------------------------------------------------------- the laminar structure of cell ranges (used by Normalize)
+
+// two valid cells are nested or disjoint; if neither contains the other, the one with the smaller id lies entirely before the other
+//@ lemma cellRangesLaminar(a CellID, b CellID)
+//@   requires vcValid(a) && vcValid(b) && uint64(a) <= uint64(b)
+//@   ensures [nested-or-before] (vcLo(a) <= uint64(b) && uint64(b) <= vcHi(a)) || (vcLo(b) <= uint64(a) && uint64(a) <= vcHi(b)) || vcHi(a) < vcLo(b)
+//@   ensures [contains-is-range-inclusion] (vcLo(a) <= uint64(b) && uint64(b) <= vcHi(a)) ==> vcLo(a) <= vcLo(b) && vcHi(b) <= vcHi(a)
+
+//@ property C11
+
+//@ spec func vcAllValid(s []CellID) bool = forall k int :: 0 <= k && k < len(s) ==> vcValid(s[k])
+
+//@ func sortCellIDs(ci []CellID)
+//@   assumed "sort.Sort over the ids: the slice is permuted into ascending order (the sorting algorithm itself is the standard library's)"
+//@   modifies ci[*]
+//@   ensures [sorted] forall a int :: forall b int :: 0 <= a && a < b && b < len(ci) ==> ci[a] <= ci[b]
+//@   ensures [validity-preserved] old(vcAllValid(ci)) ==> vcAllValid(ci)
+//@   ensures [only-old-elements] forall k int :: 0 <= k && k < len(ci) ==> (exists j int :: 0 <= j && j < len(ci) && ci[k] == vcPreElem(ci, j))
+//@   ensures [all-old-elements] forall j int :: 0 <= j && j < len(ci) ==> (exists k int :: 0 <= k && k < len(ci) && ci[k] == vcPreElem(ci, j))
+
+// Normalize: valid cells in, a sorted list of valid, pairwise disjoint cells out
+//@ func (cu *CellUnion) Normalize()
+//@   timeout 300
+//@   requires cu != nil && vcAllValid(*cu)
+//@   modifies *cu, (*cu)[*]
+//@   noframe
+//@   ensures [valid] forall k int :: 0 <= k && k < len(*cu) ==> vcValid((*cu)[k])
+//@   ensures [sorted-disjoint] forall a int :: forall b int :: 0 <= a && a < b && b < len(*cu) ==> vcHi((*cu)[a]) < vcLo((*cu)[b])
+//@   loop 1 (rangeindex int, output []CellID): invariant [input] vcAllValid(*cu) && (forall a int :: forall b int :: 0 <= a && a < b && b < len(*cu) ==> (*cu)[a] <= (*cu)[b])
+//@   loop 1: invariant [buffer] vcFreshSlice(output) && vcArr(output) != vcArr(*cu) && len(output) <= rangeindex+1
+//@   loop 1: invariant [out-valid] forall m int :: 0 <= m && m < len(output) ==> vcValid(output[m])
+//@   loop 1: invariant [out-disjoint] forall a int :: forall b int :: 0 <= a && a < b && b < len(output) ==> vcHi(output[a]) < vcLo(output[b])
+//@   loop 1: invariant [out-behind] rangeindex >= 0 ==> (forall m int :: 0 <= m && m < len(output) ==> vcLo(output[m]) <= uint64((*cu)[rangeindex]))
+//@   loop 2 (j int, ci CellID, output []CellID): invariant [pop] -1 <= j && j < len(output) && (forall m int :: j < m && m < len(output) ==> vcLo(ci) <= uint64(output[m]) && uint64(output[m]) <= vcHi(ci))
+//@   loop 3 (ci CellID, output []CellID, rangeindex1 int): invariant [merge] vcValid(ci) && (forall m int :: 0 <= m && m < len(output) ==> vcValid(output[m]) && vcHi(output[m]) < vcLo(ci)) && (forall a int :: forall b int :: 0 <= a && a < b && b < len(output) ==> vcHi(output[a]) < vcLo(output[b]))
+//@   loop 3: invariant [merge-behind] vcLo(ci) <= uint64((*cu)[rangeindex1+1]) && vcFreshSlice(output) && vcArr(output) != vcArr(*cu) && len(output) <= rangeindex1+1
